@@ -414,8 +414,8 @@ DI_CONDS = [
 FN_CONDS = [
     lambda d: {"type": "include_fields", "fields": d(st.lists(st.sampled_from(FIELDS + ["P_f", "P_g", "zz"]), min_size=1, max_size=3, unique=True))},
     lambda d: {"type": "exclude_fields", "fields": d(st.lists(st.sampled_from(FIELDS + ["P_f", "zz"]), min_size=1, max_size=3, unique=True))},
-    lambda d: {"type": "include_fields", "mode": "re", "fields": d(st.lists(st.sampled_from(["^P_", "o", "^[fg]$", "notes?", ".*h"]), min_size=1, max_size=2, unique=True))},
-    lambda d: {"type": "exclude_fields", "mode": "re", "fields": d(st.lists(st.sampled_from(["^P_", "o", "^[fg]$"]), min_size=1, max_size=2, unique=True))},
+    lambda d: {"type": "include_fields", "mode": "re", "fields": d(st.lists(st.sampled_from(["^P_", "o", "^[fg]$", "notes?", ".*h", "(?i)OTHER", "(?i)^H$", "(z)\\1", "(o)th", "(.)\\1"]), min_size=1, max_size=2, unique=True))},
+    lambda d: {"type": "exclude_fields", "mode": "re", "fields": d(st.lists(st.sampled_from(["^P_", "o", "^[fg]$", "(?i)NOTES", "(z)\\1"]), min_size=1, max_size=2, unique=True))},
     lambda d: {"type": "processing_item_applied", "processing_item_id": d(st.sampled_from(["ren", "nope"]))},
     lambda d: _state_cond(d, ["k"]),
 ]
